@@ -144,6 +144,17 @@ CHECKS["C02"] = dict(
     technique="TLA+ case enumeration + reference totality checked with TLC; vectors replayed into the Go code under a process-level watchdog",
     design="3/C02")
 
+CHECKS["C04"] = dict(
+    text="spec/Syntax.tla holds the operator table as data, a precedence-climbing reference parser and an independent declarative "
+         "predicate Valid(tree); spec/props/C04.tla enumerates chains over 27 links x 5 unary-prefix x 3 conditional variants and "
+         "TLC checks ParseIsValidTree, ValidTreeUnique (by enumerating every bracketing) and ParenRoundTrip for each, then prints "
+         "the reference tree and value; replay compares the public AST shape from Env.Parse, the rendering of the flat against the "
+         "fully parenthesised spelling (real vs real) and against the reference value.",
+    note="Trusted: the operator table transcribed from parse/operator.go; the harness's AST walker over exported parse.Node fields; "
+         "values outside the C05 window are compared on shape and flat-vs-parenthesised only.",
+    technique="TLA+ operator-precedence spec model-checked with TLC (validity + uniqueness); generated chains replayed into parser and executor",
+    design="3/C04")
+
 NOT_YET = {}
 
 props = [json.loads(l)["id"] for l in open(os.path.join(VERIF, "properties.jsonl"))]
